@@ -80,9 +80,11 @@ impl Matrix {
         if self.is_square() {
             for i in 0..self.nrows {
                 for j in i..self.ncols {
-                    if (self.data[i * self.ncols + j] - self.data[j * self.nrows + i]).abs()
-                        > f64::EPSILON
-                    {
+                    let (x, y) = (
+                        self.data[i * self.ncols + j],
+                        self.data[j * self.nrows + i],
+                    );
+                    if (x - y).abs() > f64::EPSILON * x.abs().max(y.abs()) {
                         return false;
                     }
                 }
